@@ -18,7 +18,7 @@ func ruleC15(prog *Program, rep *Report) {
 	rep.Explain("C15 decides structural clauses of 'all encoders agree': (1) per-field decisions do not leak between fields - no variable that outlives one iteration of a struct-field loop (parameters in particular) is assigned inside it, except the loop variable and accumulators; (2) the nine field-plan builders (oj, sen, alt x tag, exact, lower) agree on which plan fields they patch when promoting the fields of an embedded struct (by value: index and offset; by pointer: index and the reflective append function); (3) every float formatting call uses the bit size of the value's type; (4) the two struct-plan caches are filled in mutually exclusive branches; (5) cache access under the lock (C08 D-global). Not covered: the encoded tree, encoding/json parity, nil pointer handling.")
 	ruleFieldLoop(prog, rep)
 	ruleEmbedParity(prog, rep)
-	ruleFloatBits(prog, rep)
+	ruleFloatBits(prog, rep, "!jp") // the encoders; jp's script printing belongs to C14
 	ruleCacheExclusive(prog, rep)
 	// a reused (pooled) writer that keeps the previous call's stream writes part of the text elsewhere:
 	// sen.String and oj.JSON then disagree with the other encoders
@@ -27,6 +27,7 @@ func ruleC15(prog *Program, rep *Report) {
 	ruleBytesAs(prog, rep)
 	ruleUnsafeKind(prog, rep)
 	ruleEmbeddedNil(prog, rep)
+	ruleTableShape(prog, rep, "oj", "sen", "alt")
 }
 
 // fieldLoops finds `for` loops whose init or condition calls NumField().
@@ -270,12 +271,23 @@ func ruleEmbedParity(prog *Program, rep *Report) {
 }
 
 // ruleFloatBits: strconv float formatting must use the bit size of the value.
-func ruleFloatBits(prog *Program, rep *Report) {
+func ruleFloatBits(prog *Program, rep *Report, only ...string) {
 	rep.Rules = append(rep.Rules, "K-floatbits: in every call of strconv.AppendFloat / FormatFloat of a library package, a value that is a conversion float64(x) of a float32 (directly or through a local assigned from a float32 expression) is formatted with bit size 32, and a float64 value with bit size 64")
 	n := 0
 	for _, pk := range prog.LibPkgs() {
 		info := pk.TypesInfo
 		rel := pk.Types.Name()
+		if len(only) > 0 {
+			in := false
+			for _, o := range only {
+				if o == rel || (strings.HasPrefix(o, "!") && o[1:] != rel) {
+					in = true
+				}
+			}
+			if !in {
+				continue
+			}
+		}
 		for _, f := range pk.Syntax {
 			for _, d := range f.Decls {
 				fd, ok := d.(*ast.FuncDecl)
@@ -343,8 +355,12 @@ func ruleFloatBits(prog *Program, rep *Report) {
 		}
 	}
 	rep.Eval(n)
-	if n < 30 {
-		rep.Errorf("K-floatbits found %d float formatting calls (floor 30)", n)
+	floor := 30
+	if len(only) == 1 && !strings.HasPrefix(only[0], "!") {
+		floor = 2 // a single package (jp: the two appendValue twins)
+	}
+	if n < floor {
+		rep.Errorf("K-floatbits found %d float formatting calls (floor %d)", n, floor)
 	}
 }
 
